@@ -143,6 +143,17 @@ def check_range(rows, conc_ids, all_variant):
               bad.append(('%s%s: is_marginal wrong for a passing value%s' % (
                   what, '' if vn == 'plain' else ' (' + vn + ')', ' (raises)' if st3 != 'ok' else ''),
                           dict(lim=r['lim'], conc=c.name, probe=p, value=repr(x), got=gm, expected=exp_marg)))
+        if all_variant:
+          # "None and NaN never pass a numeric range": at any position of the list
+          inside = [pp for pp in r['probes'] if pp in r['pass']][:2]
+          for pp in inside:
+            a, b = c.probe(pp[0]), c.probe(pp[1])
+            for special in (float('nan'), None):
+              for x in ([a, special], [special, b], [a, b, special], [a, special, b]):
+                st2, got = _try(lambda: vv(x))
+                if st2 == 'ok' and got:
+                  bad.append(('all_in_range accepts a list containing %s' % ('NaN' if special is not None else 'None'),
+                              dict(lim=r['lim'], conc=c.name, value=repr(x))))
         if not all_variant:
           for special in (None, float('nan')):
             st2, got = _try(lambda: vv(special))
